@@ -18,6 +18,7 @@ import (
 	"sort"
 	"strings"
 	"sync"
+	"syscall"
 	"time"
 
 	"verifharness/common"
@@ -31,6 +32,7 @@ type Run struct {
 	// filled by execution
 	dir string
 	cm  *cmdModel
+	lim int
 }
 
 type Obs struct {
@@ -40,12 +42,24 @@ type Obs struct {
 	Stdout   int
 	OutFiles int
 	Crash    bool
+	CPUHang  bool // killed by the kernel for exceeding the CPU-time limit: the command was spinning
 	Site     string
 	Dur      time.Duration
 }
 
 var syslBin string
 var deadline = 40 * time.Second
+var cpuLimit = 6 // seconds of CPU time per subprocess (a normal run needs well under one)
+
+var hangMu sync.Mutex
+var hangs = map[string]int{}
+
+func hangCount(class string, add int) int {
+	hangMu.Lock()
+	defer hangMu.Unlock()
+	hangs[class] += add
+	return hangs[class]
+}
 
 func hasCrashMarker(stderr string) bool {
 	return strings.Contains(stderr, "panic:") || strings.Contains(stderr, "fatal error:") || strings.Contains(stderr, "goroutine ")
@@ -79,7 +93,18 @@ func execRun(r *Run) Obs {
 	}
 	ctx, cancel := context.WithTimeout(context.Background(), deadline)
 	defer cancel()
-	cmd := exec.CommandContext(ctx, syslBin, r.Argv...)
+	// A CPU-time limit (RLIMIT_CPU via the shell) tells a command that loops forever from one that is merely
+	// starved on a busy machine: the kernel kills the spinning process with SIGXCPU after cpuLimit seconds of its
+	// own CPU time, long before the wall-clock deadline, whatever the load.
+	lim := cpuLimit
+	if strings.HasPrefix(r.Class, "import-") {
+		lim = 4 * cpuLimit // the arr.ai based importers legitimately use several seconds
+	} else if hangCount(r.Class, 0) >= 3 {
+		lim = 2 // this command class has already spun three times: the rest of the class is cut short
+	}
+	r.lim = lim
+	sh := fmt.Sprintf("ulimit -t %d; exec \"$0\" \"$@\"", lim)
+	cmd := exec.CommandContext(ctx, "/bin/sh", append([]string{"-c", sh, syslBin}, r.Argv...)...)
 	cmd.Dir = dir
 	cmd.Env = append(os.Environ(), "SYSL_PLANTUML=http://localhost:1/plantuml", "GOTRACEBACK=single")
 	var so, se bytes.Buffer
@@ -100,6 +125,11 @@ func execRun(r *Run) Obs {
 	if err != nil {
 		if ee, ok := err.(*exec.ExitError); ok {
 			o.RC = ee.ExitCode()
+			if ws, ok := ee.Sys().(syscall.WaitStatus); ok && ws.Signaled() && (ws.Signal() == syscall.SIGXCPU || ws.Signal() == syscall.SIGKILL) && ctx.Err() == nil {
+				o.CPUHang = true
+				hangCount(r.Class, 1)
+				return o
+			}
 		} else {
 			o.RC = -2
 			o.Stderr += "\nexec: " + err.Error()
@@ -188,6 +218,10 @@ func firstLine(s, marker string) string {
 func judge(c *common.Ctx, r *Run, o Obs) string {
 	c.Hist("class:" + r.Class)
 	switch {
+	case o.CPUHang:
+		c.Hist("outcome:hang")
+		c.Fail("hang:"+r.Class, fmt.Sprintf("`sysl %s` on %s does not terminate: it was still computing after %d s of CPU time (a normal run needs well under one)", strings.Join(r.Argv, " "), r.Note, r.lim), r)
+		return "hang"
 	case o.Timeout:
 		c.Hist("outcome:hang")
 		c.Fail("hang:"+r.Class, fmt.Sprintf("`sysl %s` on %s did not terminate within %s (nor, run alone, within %s)", strings.Join(r.Argv, " "), r.Note, deadline, 3*deadline), r)
@@ -274,7 +308,7 @@ func matrix(rng *common.Rng, m *SModel, text string, thorough bool) []*Run {
 	}
 	add("validate", "validate", "m.sysl")
 	// sd
-	for _, i := range some(2, len(eps)) {
+	for i := range eps { // every endpoint of the model is tried as the start endpoint
 		add("sd", "sd", "-o", "out/sd.puml", "-s", eps[i], "m.sysl")
 	}
 	if len(eps) > 0 {
